@@ -56,6 +56,9 @@ type Policy struct {
 	// is later than its end time by more than this allowance (RFC 4120 3.2.3: "later than end time
 	// by more than the allowable clock skew"); 0 = no allowance.  Both are conformant.
 	ExpiryGraceS int64 `json:"expiry_grace_s,omitempty"`
+	// TicketAuthDataPad: every ticket carries this many bytes of authorization data (as tickets with a
+	// PAC of many group memberships do): the size of the replies grows by as much.
+	TicketAuthDataPad int `json:"ticket_authdata_pad,omitempty"`
 	// S2KParamsForAll: ETYPE-INFO2 carries 4-byte s2kparams also for des3 and rc4 (which define none)
 	// and for AES principals with default parameters: drives clients into their parameter error paths.
 	S2KParamsForAll bool `json:"s2kparams_for_all,omitempty"`
@@ -673,6 +676,9 @@ func (k *KDC) issue(a issueArgs) []byte {
 		st := a.start
 		etp.StartTime = &st
 	}
+	if n := k.Policy.TicketAuthDataPad; n > 0 {
+		etp.AuthData = append(etp.AuthData, rk.AuthDataEntry{Type: 1, Data: rk.EncAuthData([]rk.AuthDataEntry{{Type: 71, Data: make([]byte, n)}})})
+	}
 	tenc, err := rk.Seal(a.tkey.Key, rk.KUTicket, etp.EncBytes(), a.r.Bytes(rcrypto.ConfounderSize(int(a.tkey.Key.Etype))), int64(a.tkey.Kvno), true)
 	if err != nil {
 		return k.errReply(rk.ErrGeneric, a.req, nil, err.Error())
@@ -721,6 +727,18 @@ func (k *KDC) issue(a issueArgs) []byte {
 			ep.SRealm = "EVIL.TEST"
 		case "ticket-realm":
 			rep.Ticket.Realm = "EVIL.TEST"
+		case "ticket-sname":
+			// the clear-text name field of the ticket; the sealed reply part keeps the honest name
+			rep.Ticket.SName = rk.ParseName("krbtgt/EVIL.TEST")
+			if a.kind != "as" {
+				rep.Ticket.SName = rk.ParseName("HTTP/evil.sim.test")
+			}
+		case "starttime":
+			// only the start time the reply announces is off by Arg (authtime stays honest)
+			if ep.StartTime != nil {
+				t := a.start.Add(time.Duration(pt.Arg))
+				ep.StartTime = &t
+			}
 		case "caddr-added":
 			ep.CAddr = append(append([]rk.HostAddress{}, ep.CAddr...), rk.HostAddress{Type: 2, Addr: []byte{6, 6, 6, 6}})
 		case "caddr-dropped":
